@@ -94,9 +94,12 @@ def impl_extract(b, name, repl, want_file, d):
     try:
         cmd_payload_extract.main(input_envelope=inp, output_envelope=oe, payload_name=name, output_payload_file=op if want_file else None,
                                  payload_replace_path=rp if repl is not None else None)
-        return {"ok": {"envelope": open(oe, "rb").read().hex(), "payload": open(op, "rb").read().hex() if want_file else None}}
     except BaseException as e:  # noqa
         return {"err": type(e).__name__}
+    if not os.path.exists(oe):
+        return {"err": "no-output-envelope"}
+    return {"ok": {"envelope": open(oe, "rb").read().hex(),
+                   "payload": (open(op, "rb").read().hex() if os.path.exists(op) else "<file not written>") if want_file else None}}
 
 
 def work(args):
@@ -113,6 +116,12 @@ def work(args):
             fn = f"special{k}.bin"
             files[fn] = bytes([0xFF]) + nm.encode() + bytes(rng.randrange(0, 256) for _ in range(rng.randrange(0, 12)))
             pl[nm] = fn
+    if rng.random() < 0.35:
+        # a payload that exists and is empty (zero-length content is content)
+        pl = desc["SUIT_Envelope_Tagged"].setdefault("suit-integrated-payloads", {})
+        files["empty_payload.bin"] = b""
+        pl["#empty"] = "empty_payload.bin"
+        special = special + ["#empty"]
     c = suitcases.run_impl_create(desc, files)
     if "ok" not in c:
         return None
